@@ -105,7 +105,7 @@ def _caller(stmts, copy, kind_cls, where):
         elif isinstance(st, ast.If) and not st.orelse and [_u(x) for x in st.body] == [_E(NAME_ERROR)] and \
                 isinstance(st.test, ast.Compare) and _u(st.test.left) == "name" and isinstance(st.test.ops[0], ast.In):
             steps.append(".guard .nameFree")
-        elif isinstance(st, ast.Expr) and isinstance(st.value, ast.Call) and _u(st.value.func).endswith("._parent._h5group.copy"):
+        elif isinstance(st, ast.Expr) and isinstance(st.value, ast.Call) and (_u(st.value.func).endswith("._parent._h5group.copy") or _u(st.value.func) == "obj._h5group.copy"):
             kws = {k.arg: _u(k.value) for k in st.value.keywords}
             if st.value.args or set(kws) - {"source", "dest", "name", "cls", "shallow", "keep_id"} or \
                     kws.get("name") != "name" or kws.get("dest") != "self._h5group":
